@@ -53,6 +53,23 @@ CHECKS = {
         note="Trusted: CPython's parser as the definition of the shared grammar; the neutral "
              "form (negation sign-normalised, sums/products flattened). Strings CPython rejects "
              "are only required to be fully consumed or rejected with ParseError."),
+    "C13": dict(
+        category="exploration", design="DESIGN.md 4/C13",
+        technique="bounded-exhaustive enumeration of expression trees, each translated through the "
+                  "four Python code-generation paths and executed over the full environment box "
+                  "against an independent reference evaluator",
+        text="Every shape of the Python-expressible fragment with every leaf combination, every "
+             "well-typed (parent, position, child) nesting and three-level chains are sent "
+             "through compile() (all argument orders of listed variables, pickle round trip for "
+             "every protocol), to_python_ast (unparse + eval), to_evaluatable_python_function "
+             "(exec + keyword call) and the AST importer; each generated program is run on the "
+             "whole box and compared with the reference semantics (value or arithmetic error). "
+             "The four paths are judged independently so that a failure in one cannot mask "
+             "another.",
+        note="Trusted: vf/refsem.py, CPython's compile/eval. Float-valued results compared "
+             "with 1e-9 relative tolerance; environments ill-typed for a tree (reference raises "
+             "TypeError) are skipped; the per-path fragment boundaries are tabulated in the "
+             "check (EXPECTED_REFUSALS)."),
 }
 
 NOT_BUILT_REASON = "check not built yet in this revision (planned, see DESIGN.md section 4)"
